@@ -21,7 +21,7 @@ FAM = "SqlModel"
 def run(ctx, prop, nscen):
     vlib.build_harness(ctx)
     tr = os.path.join(ctx.work, prop.lower() + ".ndjson")
-    vlib.vdrive(ctx, ["sql", "c03", tr, nscen, prop], timeout=3000)
+    vlib.vdrive_resumable(ctx, ["sql", "c03", tr, nscen, prop], tr, timeout=3000)
     res = vlib.validate(ctx, FAM, "SqlModelTrace", "Trace.cfg", tr, name="val-" + prop.lower(), timeout=3400)
     judge(ctx, res, tr, "rollback / index agreement histories")
     c = count_events(tr)
@@ -61,7 +61,7 @@ def restarts(ctx):
     scratch = "/dev/shm/verif-C07r-%d" % os.getpid()
     shutil.rmtree(scratch, ignore_errors=True)
     try:
-        vlib.vdrive(ctx, ["sql", "c09", tr, 1200 if ctx.tier == "thorough" else 80, scratch, "C07"], timeout=3000, ok_codes=(0, 3))
+        vlib.vdrive_resumable(ctx, ["sql", "c09", tr, 1200 if ctx.tier == "thorough" else 80, scratch, "C07"], tr, timeout=3000)
     finally:
         shutil.rmtree(scratch, ignore_errors=True)
     res = vlib.validate(ctx, FAM, "SqlModelTrace", "Trace.cfg", tr, name="val-c07-restarts", timeout=3400)
